@@ -142,8 +142,11 @@ def lengthMismatch (length : Option Nat) (nestedLengths : List Nat) : Bool :=
   | none => false
 
 /-- `nested_checkpoint_scan(f, init, xs, length, nested_lengths=…)` for a single array `xs`:
- the `length` check (`ValueError`), `reshape` (`TypeError` when the sizes differ; the trailing
- shape has positive size), then the recursion. -/
+ the `length` check (`ValueError`), `reshape` (`TypeError` when the leading length is not
+ `prod nested_lengths`), then the recursion.  This is the instance "the trailing shape
+ `x.shape[1:]` has positive size" of `nestedCheckpointScanSized` below
+ (`Dino.C14.nestedCheckpointScanSized_pos`): `reshape` compares TOTAL sizes, so an array whose
+ trailing shape has size `0` passes it with every leading length. -/
 def nestedCheckpointScan (f : C → X → C × Y) (init : C) (xs : List X) (length : Option Nat)
     (nestedLengths : List Nat) : Except Err (C × List Y) :=
   if lengthMismatch length nestedLengths then .error .valueError
@@ -210,6 +213,39 @@ def nestedCheckpointScanTreeOut (nOut : Nat) (f : C → List X → C × Y) (init
   if lengthMismatch length nestedLengths then .error .valueError
   else if leaves.any (fun a => a.length != prod nestedLengths) then .error .typeError
   else innerNestedScanTreeOut nOut f nestedLengths init leaves
+
+/-! ### `reshape` compares total sizes: arrays whose trailing shape has size `0` -/
+
+/-- `x.reshape(tuple(nested_lengths) + x.shape[1:])` raises (`TypeError`) iff the TOTAL sizes
+ differ; `n` = leading length of `x`, `rowSize = prod x.shape[1:]` -/
+def reshapeRejects (rowSize n : Nat) (nestedLengths : List Nat) : Bool :=
+  n * rowSize != prod nestedLengths * rowSize
+
+/-- the rows of the reshaped array (flat, row-major): the rows of `x` when the trailing shape has
+ positive size (then `reshape` only succeeds with `prod nested_lengths` rows); when it has size `0`
+ every leading length is accepted and the result has `prod nested_lengths` rows, all equal to the
+ empty row -/
+def reshaped (rowSize : Nat) (emptyRow : X) (xs : List X) (nestedLengths : List Nat) : List X :=
+  if rowSize = 0 then List.replicate (prod nestedLengths) emptyRow else xs
+
+/-- `nested_checkpoint_scan` for a single array `xs` whose rows have `rowSize` entries
+ (`rowSize = prod xs.shape[1:]`, possibly `0`), a body with `nOut` output leaves -/
+def nestedCheckpointScanSized (rowSize : Nat) (emptyRow : X) (nOut : Nat) (f : C → X → C × Y)
+    (init : C) (xs : List X) (length : Option Nat) (nestedLengths : List Nat) :
+    Except Err (C × List Y) :=
+  if lengthMismatch length nestedLengths then .error .valueError
+  else if reshapeRejects rowSize xs.length nestedLengths then .error .typeError
+  else innerNestedScanOut nOut f nestedLengths init (reshaped rowSize emptyRow xs nestedLengths)
+
+/-- `nested_checkpoint_scan` for a pytree `xs`, every leaf given with the size of its trailing
+ shape (`(rowSize, rows)`) -/
+def nestedCheckpointScanTreeSized (emptyRow : X) (nOut : Nat) (f : C → List X → C × Y) (init : C)
+    (leaves : List (Nat × List X)) (length : Option Nat) (nestedLengths : List Nat) :
+    Except Err (C × List Y) :=
+  if lengthMismatch length nestedLengths then .error .valueError
+  else if leaves.any (fun a => reshapeRejects a.1 a.2.length nestedLengths) then .error .typeError
+  else innerNestedScanTreeOut nOut f nestedLengths init
+    (leaves.map fun a => reshaped a.1 emptyRow a.2 nestedLengths)
 
 end scans
 
